@@ -1,6 +1,7 @@
 /- Term encoding of the wire cases and observations (C03 / C05 drivers).  Grammar = harness/pt/src/wire.rs. -/
 import Rbgp.Term
 import Rbgp.Wire.Stream
+import Rbgp.Wire.Nlri3
 import Rbgp.Wire.Spec
 namespace Rbgp.Wire.Codec
 open Rbgp Rbgp.Term Rbgp.Wire
@@ -19,7 +20,12 @@ def profileOf? : String → Option Profile
   | "release" => some .release
   | _ => none
 
-def modelledFam (afi safi : Nat) : Bool := (afi == 1 || afi == 2) && (safi == 1 || safi == 2)
+/-- families whose NLRI decoder is in the model: IPv4/IPv6 unicast+multicast; phase 2: labeled (4), VPN (128),
+    SR policy (73), flowspec (133, 134), RTC (1/132), EVPN (25/70) -/
+def modelledFam (afi safi : Nat) : Bool :=
+  ((afi == 1 || afi == 2)
+      && (safi == 1 || safi == 2 || safi == 4 || safi == 128 || safi == 73 || safi == 133 || safi == 134))
+    || (afi == 1 && safi == 132) || (afi == 25 && safi == 70)
 
 def distinctKeys : List Nat → Bool
   | [] => true
@@ -146,7 +152,7 @@ def bfdT : Out (Except BfdErr BfdMsg) → Term
 
 /-- the model's observation of a case -/
 def runCase (p : Profile) : Case → Term
-  | .bgp c chunks => tag "obs" ((bgpStream noHypDec p c [] chunks).map recT)
+  | .bgp c chunks => tag "obs" ((bgpStream (decP3 p noHypDec) p c [] chunks).map recT)
   | .xbgp _ _ => list [sym "hyp"]
   | .rtr chunks => tag "obs" ((rtrStream [] chunks).map rrecT)
   | .bfd b => tag "obs" [bfdT (bfdDecode b)]
